@@ -91,11 +91,9 @@ def gen_history(rng, max_commits=25):
             msg = "misc %d" % cid
         commits[cid] = mg.Commit("r", cid, [commits[p] for p in ps], msg, base + cid * step, files)
     names = rng.sample(BRANCH_NAMES, rng.randint(1, 4))
-    if "origin/master" in names and "origin/main" in names:
-        names.remove("origin/main")
     seen_keys = set()
     for nm in list(names):
-        k = repr(mg.branch_sort_key(nm))
+        k = repr(mg.branch_sort_key(nm)) if mg.short_branch(nm) != "master" else nm     # (two trunks may coexist)
         if k in seen_keys:
             names.remove(nm)     # same sort key (1.2 / 1.02): order unspecified
         seen_keys.add(k)
@@ -180,35 +178,37 @@ def parse_printed(text, sections=None):
     return res
 
 
-def judge(ctx, repo, text, case, repos=None, repo_id=None):
-    """repo_id: the repository is one of several of the collection (it pins components, which are analysed in the
-    same report): its own listing is judged, the printed report is left to C07"""
-    ctx.evaluated()
-    matching = {cid for cid, c in repo.commits.items() if text in c.message}
-    try:
-        if repos is None:
-            repos = ReposCollection({'r': mg.repo_for('r', repo)})
-        elif repo_id is None:
-            ctx.count("reports_on_a_reused_collection")
-        if repo_id is None:
-            (rid, rgraph), = repos.make_reports_data(text)
-        else:
-            rgraph = dict(repos.make_reports_data(text))[repo_id]
-    except Exception as err:
-        ctx.violation("report-raises", {"type": type(err).__name__, "msg": str(err)[:200]}, case)
-        return
-    order, exp = mg.branch_oracle(repo)
-    rb_by_name = {br.branch_name: br for br in rgraph.branches}
+def odd_git_dir():
+    """-> (directory to remove afterwards, the .git directory): the repository lies in a directory whose name has
+    characters that mean something to glob patterns and regular expressions"""
+    import os
+    import tempfile
+    top = tempfile.mkdtemp(prefix="vf-c06-git-")
+    git_dir = os.path.join(top, "project [v2] {a,b}*?+(1)", ".git")
+    os.makedirs(git_dir)
+    return top, git_dir
+
+
+def branch_problems(count, repo, rgraph, matching, tagged, order, exp, allowed_trunks):
+    """the listing of every branch of the report against the reachability oracle; -> (problems, listed_by_branch).
+    The reported branches (highest first) are matched with the expected ones in order; `allowed_trunks`: which of two
+    coexisting trunks may be in the report (None: a single trunk)"""
     problems = []
-    rep_order = [br.branch_name for br in rgraph.branches]
-    exp_order = [mg.short_branch(b) for b in reversed(order) if mg.short_branch(b) in rb_by_name]
-    if rep_order != exp_order:
-        problems.append(("branch-order", {"reported": rep_order, "expected": exp_order}))
-    tagged = set(repo.tags.values())
+    reported = list(rgraph.branches)
+    rb_of = {}
+    k = 0
+    for b in reversed(order):
+        if k < len(reported) and reported[k].branch_name == mg.short_branch(b) and (
+                allowed_trunks is None or mg.short_branch(b) != "master" or b in allowed_trunks):
+            rb_of[b] = reported[k]
+            k += 1
+    if k != len(reported):
+        problems.append(("branch-order", {"reported": [br.branch_name for br in reported],
+                                          "expected": [mg.short_branch(b) for b in reversed(order)]}))
     listed_by_branch = {}
     for b in order:
         e = exp[b]
-        br = rb_by_name.get(mg.short_branch(b))
+        br = rb_of.get(b)
         listed = {}
         if br is not None:
             for rb in br.rbuilds.values():
@@ -222,7 +222,7 @@ def judge(ctx, repo, text, case, repos=None, repo_id=None):
             if len(lst) > 1:
                 problems.append(("commit-listed-twice", {"branch": b, "commit": cid, "where": lst}))
         for cid in sorted(matching):
-            ctx.count("commit_branch_decisions")
+            count("commit_branch_decisions")
             lst = listed.get(cid, [])
             if cid in e['anc']:
                 cont = {x for x in e['builds'] if cid in mg.ancestors(repo.commits[x])}
@@ -242,7 +242,7 @@ def judge(ctx, repo, text, case, repos=None, repo_id=None):
                         problems.append(("listed-under-later-build",
                                          {"branch": b, "commit": cid, "where": lst, "earliest": sorted(minimal)}))
                     else:
-                        ctx.count("listed_under_earliest_build")
+                        count("listed_under_earliest_build")
                 elif any(k == RBuild.NORMAL for k, _ in lst):
                     problems.append(("listed-under-build-that-does-not-contain-it",
                                      {"branch": b, "commit": cid, "where": lst}))
@@ -251,7 +251,7 @@ def judge(ctx, repo, text, case, repos=None, repo_id=None):
                     problems.append(("unmerged-commit-not-exactly-once-under-not-merged",
                                      {"branch": b, "commit": cid, "where": lst}))
                 else:
-                    ctx.count("not_merged_listings")
+                    count("not_merged_listings")
             elif lst:
                 problems.append(("unreachable-commit-listed", {"branch": b, "commit": cid, "where": lst}))
         if br is not None:
@@ -266,11 +266,53 @@ def judge(ctx, repo, text, case, repos=None, repo_id=None):
                         problems.append(("not-built-number-mismatch",
                                          {"branch": b, "commit": bc, "build_num": str(rb.build_num)}))
         if e['head'] in e['lower']:
-            ctx.count("heads_inside_lower_branch")
+            count("heads_inside_lower_branch")
+    return problems, listed_by_branch
+
+
+def judge(ctx, repo, text, case, repos=None, repo_id=None):
+    """repo_id: the repository is one of several of the collection (it pins components, which are analysed in the
+    same report): its own listing is judged, the printed report is left to C07"""
+    ctx.evaluated()
+    matching = {cid for cid, c in repo.commits.items() if text in c.message}
+    try:
+        if repos is None:
+            repos = ReposCollection({'r': mg.repo_for('r', repo)})
+        elif repo_id is None:
+            ctx.count("reports_on_a_reused_collection")
+        if repo_id is None:
+            (rid, rgraph), = repos.make_reports_data(text)
+        else:
+            rgraph = dict(repos.make_reports_data(text))[repo_id]
+    except Exception as err:
+        ctx.violation("report-raises", {"type": type(err).__name__, "msg": str(err)[:200]}, case)
+        return
+    tagged = set(repo.tags.values())
+    both_trunks = "origin/master" in repo.branches and "origin/main" in repo.branches
+    if not both_trunks:
+        order, exp = mg.branch_oracle(repo)
+        problems, listed_by_branch = branch_problems(ctx.count, repo, rgraph, matching, tagged, order, exp, None)
+    else:
+        # the trunk was renamed and the old ref is still there: two branches are shown as 'master'. Which of the two
+        # sorts lower is not said anywhere, and a trunk with nothing to show may be left out: every reading is tried,
+        # the report has to agree with one of them
+        ctx.count("histories_with_two_trunks")
+        best = None
+        for lower_trunk in ("origin/main", "origin/master"):
+            order, exp = mg.branch_oracle(repo, lower_trunk=lower_trunk)
+            for allowed in (("origin/main", "origin/master"), ("origin/main",), ("origin/master",)):
+                found, listed_by_branch = branch_problems(lambda *a: None, repo, rgraph, matching, tagged, order, exp,
+                                                          allowed)
+                # (a trunk that is left out of the report is judged like any branch without a listing: it must have
+                # nothing to show)
+                if best is None or len(found) < len(best[0]):
+                    best = (found, order, exp)
+        problems, order, exp = best
+        listed_by_branch = {}
     # ---- printed report
     printed = None
     try:
-        if repo_id is None:
+        if repo_id is None and not both_trunks:
             report = repos.make_report(text)
             printed = str(report.ch_text(no_color=True))
     except Exception as err:
@@ -384,7 +426,7 @@ def run_shard(ctx):
                 # the refs are read from a .git directory by the production code (packed refs, annotated tags)
                 import shutil
                 import tempfile
-                git_dir = tempfile.mkdtemp(prefix="vf-c06-git-")
+                git_top, git_dir = odd_git_dir()
                 try:
                     refs_seed = rng.getrandbits(32)
                     loose = rng.choice([0.0, 0.3, 0.6])
@@ -398,7 +440,7 @@ def run_shard(ctx):
                                                 "refs_seed": refs_seed, "loose": loose}, disk)
                     ctx.count("loose_refs_resolved_by_the_report_builder", disk.repos['r'].repo.loose_lookups)
                 finally:
-                    shutil.rmtree(git_dir, ignore_errors=True)
+                    shutil.rmtree(git_top, ignore_errors=True)
             for k, text in enumerate(texts):
                 if shared is not None and k and rng.random() < 0.5:
                     # between two reports of the long-lived collection new build tags arrive (as after a fetch)
@@ -451,7 +493,7 @@ def replay(ctx, case):
         import random
         import shutil
         import tempfile
-        git_dir = tempfile.mkdtemp(prefix="vf-c06-git-")
+        git_top, git_dir = odd_git_dir()
         try:
             if "refs_seed" in case:
                 judge(ctx, repo, case["text"], case, disk_collection(repo, git_dir, case["refs_seed"], case["loose"])[0])
@@ -459,6 +501,6 @@ def replay(ctx, case):
                 for k in range(4):       # (older replay files do not record which tags were annotated: several drawings)
                     judge(ctx, repo, case["text"], case, disk_collection(repo, git_dir, k, 0.0)[0])
         finally:
-            shutil.rmtree(git_dir, ignore_errors=True)
+            shutil.rmtree(git_top, ignore_errors=True)
         return
     judge(ctx, repo, case["text"], case, shared)
